@@ -394,6 +394,10 @@ func c08(c *Ctx) {
 	c.Guarded("consul/cluster-id-once", cs, p.CallsRe(`.*api\.\(\*KV\)\.Put`), gs(GP("(\"\" == consul.(*Leaser).ClusterID(p0, p1)#0)", true)), 1, "the cluster id is written only when none exists", "the cluster ID can only be set once")
 	c.ErrHandled("consul/cluster-id-read-error", cs, p.PlainCalls("consul.(*Leaser).ClusterID"), p.CallsRe(`.*api\.\(\*KV\)\.Put`), 1, "a failed read never overwrites", "")
 	cx := "consul.(*Leaser).AcquireExisting"
+	for _, f := range []struct{ fn, short string }{{ca, "acquire"}, {cx, "existing"}} {
+		c.Guarded("consul/"+f.short+"/lease-only-when-locked", f.fn, p.SuccessReturn, gs(G(`.*api\.\(\*KV\)\.Acquire\(.*\)#0`, true)), 1, f.short+": a lease is returned only when Consul answered that the key is locked by this session", "a node that treats 'not acquired' as success becomes primary while Consul names another")
+	}
+	c.EdgeReturns("consul/existing-not-acquired", cx, G(`.*api\.\(\*KV\)\.Acquire\(.*\)#0`, false), pat("litefs.ErrPrimaryExists"), 1, "a handed-off lock that could not be re-taken is reported as ErrPrimaryExists", "")
 	c.Before("consul/existing-renewed-first", cx, kvAcq, p.PlainCalls("consul.(*Lease).Renew"), 1, "a handed-off session is renewed (proving it is alive) before the key is re-locked", "")
 	c.ErrHandled("consul/existing-renew-error", cx, p.PlainCalls("consul.(*Lease).Renew"), kvAcq, 1, "a dead session is not re-locked", "")
 	_ = fmt.Sprint
